@@ -237,12 +237,18 @@ class _Expr(ast.NodeTransformer):
                     return ast.Tuple(elts=a.elts, ctx=ast.Load())
                 if isinstance(a, (ast.List, ast.Tuple)) and f.id == "list":
                     return ast.List(elts=a.elts, ctx=ast.Load())
+            # sorted([.. for ..]) / tuple / frozenset: the consumer drains its argument before doing anything else -> one spelling (a generator)
+            if f.id in ("sorted", "tuple", "frozenset") and len(node.args) >= 1 and isinstance(node.args[0], ast.ListComp):
+                node.args[0] = ast.GeneratorExp(elt=node.args[0].elt, generators=node.args[0].generators)
             if f.id == "range" and len(node.args) == 2 and isinstance(node.args[0], ast.Constant) and node.args[0].value == 0 and not node.keywords:
                 node.args = node.args[1:]
             # super(C, self) -> super()
             if f.id == "super" and len(node.args) == 2 and isinstance(node.args[1], ast.Name) and node.args[1].id in ("self", "cls") \
                     and isinstance(node.args[0], ast.Name) and node.args[0].id == self.class_name:
                 return ast.Call(func=f, args=[], keywords=[])
+        if isinstance(f, ast.Attribute) and f.attr == "join" and len(node.args) == 1 and not node.keywords and isinstance(node.args[0], ast.ListComp):
+            # sep.join([.. for ..]): join() materialises its argument first either way
+            node.args[0] = ast.GeneratorExp(elt=node.args[0].elt, generators=node.args[0].generators)
         if isinstance(f, ast.Attribute):
             # x.get(k, None) -> x.get(k)
             if f.attr == "get" and len(node.args) == 2 and isinstance(node.args[1], ast.Constant) and node.args[1].value is None and not node.keywords:
@@ -622,6 +628,9 @@ def _norm_block(stmts, fn_locals):
     out = _tail_merge(out)
     out = _try_hoist(out)
     out = _result_var(out)
+    out = _break_to_tail(out)
+    out = _next_index_temps(out, fn_locals)
+    out = _enumerate_start(out, fn_locals)
     out = _count_loops(out, fn_locals)
     out = _countdown_loops(out, fn_locals)
     out = _loops_to_builtins(out)
@@ -984,37 +993,156 @@ def _result_var(stmts):
 
 
 def _count_loops(stmts, later_reads):
-    """i = A ; while i < B: BODY ; i += S     ->     for i in range(A, B, S): BODY
+    """i = A ; [pure assignments that do not touch i] ; while i < B: BODY ; i += S     ->     ... ; for i in range(A, B, S): BODY
     (S a positive int literal, A and B pure and not written in BODY, i not written in BODY and not read after the loop, no `continue` that
     would skip the increment; B is taken to be an int as in every such loop of this code base)"""
     out = list(stmts)
     k = 0
-    while k + 1 < len(out):
-        a, w = out[k], out[k + 1]
-        if isinstance(a, ast.Assign) and len(a.targets) == 1 and isinstance(a.targets[0], ast.Name) and isinstance(w, ast.While) and not w.orelse \
-                and isinstance(w.test, ast.Compare) and len(w.test.ops) == 1 and isinstance(w.test.ops[0], ast.Lt) and isinstance(w.test.left, ast.Name) \
-                and w.test.left.id == a.targets[0].id and w.body and isinstance(w.body[-1], ast.AugAssign) and isinstance(w.body[-1].op, ast.Add) \
-                and isinstance(w.body[-1].target, ast.Name) and w.body[-1].target.id == a.targets[0].id and isinstance(w.body[-1].value, ast.Constant) \
-                and type(w.body[-1].value.value) is int and w.body[-1].value.value > 0 and _simple_pure(a.value) and _simple_pure(w.test.comparators[0]):
-            i = a.targets[0].id
-            body = w.body[:-1]
-            bound = w.test.comparators[0]
-            written = {n.id for st in body for n in ast.walk(st) if isinstance(n, ast.Name) and isinstance(n.ctx, (ast.Store, ast.Del))}
-            has_continue = any(isinstance(n, ast.Continue) for st in body for n in ast.walk(st) if not isinstance(n, (ast.For, ast.While)))
-            nested_loop_continue = False
-            inside = sum(1 for n in ast.walk(w) if isinstance(n, ast.Name) and n.id == i and isinstance(n.ctx, ast.Load))
-            info = later_reads.get(i) if isinstance(later_reads, dict) else None
-            # every read of the counter in the whole function is inside this loop (the value it is left with is never looked at)
-            read_after = info is None or info[1] != inside
-            if body and i not in written and not (written & (_names_loaded(bound) | _names_loaded(a.value))) and not has_continue and not read_after \
-                    and not any(isinstance(n, (ast.Yield, ast.YieldFrom)) and False for st in body for n in ast.walk(st)):
-                step = w.body[-1].value.value
-                args = [a.value, bound] + ([ast.Constant(step)] if step != 1 else [])
-                if step == 1 and isinstance(a.value, ast.Constant) and a.value.value == 0:
-                    args = [bound]
-                out[k:k + 2] = [ast.For(target=ast.Name(id=i, ctx=ast.Store()), iter=ast.Call(func=ast.Name(id="range", ctx=ast.Load()), args=args, keywords=[]), body=body, orelse=[])]
-                continue
+    while k < len(out):
+        w = out[k]
+        if isinstance(w, ast.While) and not w.orelse and isinstance(w.test, ast.Compare) and len(w.test.ops) == 1 and isinstance(w.test.ops[0], ast.Lt) \
+                and isinstance(w.test.left, ast.Name) and w.body and isinstance(w.body[-1], ast.AugAssign) and isinstance(w.body[-1].op, ast.Add) \
+                and isinstance(w.body[-1].target, ast.Name) and w.body[-1].target.id == w.test.left.id and isinstance(w.body[-1].value, ast.Constant) \
+                and type(w.body[-1].value.value) is int and w.body[-1].value.value > 0 and _simple_pure(w.test.comparators[0]):
+            i = w.test.left.id
+            # the initialisation: the nearest preceding statement that binds i, reached over pure assignments that neither read nor write i
+            j = k - 1
+            a = None
+            between = []
+            while j >= 0:
+                st = out[j]
+                if isinstance(st, ast.Assign) and len(st.targets) == 1 and isinstance(st.targets[0], ast.Name) and st.targets[0].id == i:
+                    a = st
+                    break
+                tv = _tgt_val(st)
+                if tv is None or tv[0] == i or i in tv[1] or not isinstance(st, ast.Assign):
+                    break
+                between.append(st)
+                j -= 1
+            if a is not None and _simple_pure(a.value) and i not in _names_loaded(a.value) \
+                    and not ({st.targets[0].id for st in between} & _names_loaded(a.value)):
+                body = w.body[:-1]
+                bound = w.test.comparators[0]
+                written = {n.id for st in body for n in ast.walk(st) if isinstance(n, ast.Name) and isinstance(n.ctx, (ast.Store, ast.Del))}
+                has_continue = any(isinstance(n, ast.Continue) for st in body for n in ast.walk(st) if not isinstance(n, (ast.For, ast.While)))
+                has_continue = has_continue or any(isinstance(n, ast.Continue) for st in body for n in ast.walk(st))
+                inside = sum(1 for n in ast.walk(w) if isinstance(n, ast.Name) and n.id == i and isinstance(n.ctx, ast.Load))
+                info = later_reads.get(i) if isinstance(later_reads, dict) else None
+                # every read of the counter in the whole function is inside this loop (the value it is left with is never looked at)
+                read_after = info is None or info[1] != inside
+                if body and i not in written and not (written & (_names_loaded(bound) | _names_loaded(a.value))) and not has_continue and not read_after:
+                    step = w.body[-1].value.value
+                    args = [a.value, bound] + ([ast.Constant(step)] if step != 1 else [])
+                    if step == 1 and isinstance(a.value, ast.Constant) and a.value.value == 0:
+                        args = [bound]
+                    out[k] = ast.For(target=ast.Name(id=i, ctx=ast.Store()), iter=ast.Call(func=ast.Name(id="range", ctx=ast.Load()), args=args, keywords=[]), body=body, orelse=[])
+                    del out[j]
+                    k = max(j - 1, 0)
+                    continue
         k += 1
+    return out
+
+
+def _break_to_tail(stmts):
+    """for ...: ... break ...  else: E     ; REST        ->        for ...: ... REST ...    ; E
+    when E and REST both always leave the function (return / raise) and the loop has exactly one `break` of its own, outside any `try` /
+    `with` inside the loop: REST runs exactly after that break, with the bindings of that iteration, and E exactly when the loop runs out."""
+    out = list(stmts)
+    for k, lp in enumerate(out):
+        if not (isinstance(lp, (ast.For, ast.While)) and lp.orelse and _exits(lp.orelse)):
+            continue
+        rest = out[k + 1:]
+        if not rest or not _exits(rest) or any(isinstance(n, (ast.FunctionDef, ast.AsyncFunctionDef, ast.ClassDef)) for st in rest for n in ast.walk(st)):
+            continue
+        sites = []
+
+        def find(block, guarded):
+            for idx, st in enumerate(block):
+                if isinstance(st, ast.Break):
+                    sites.append((block, idx, guarded))
+                elif isinstance(st, ast.If):
+                    find(st.body, guarded)
+                    find(st.orelse, guarded)
+                elif isinstance(st, (ast.Try, ast.With, ast.AsyncWith)):
+                    for fld in ("body", "orelse", "finalbody"):
+                        find(getattr(st, fld, []) or [], True)
+                    for h in getattr(st, "handlers", []) or []:
+                        find(h.body, True)
+                elif isinstance(st, (ast.For, ast.While, ast.AsyncFor)):
+                    find(st.orelse, guarded)      # a break in the else of an inner loop belongs to this loop
+                elif isinstance(st, ast.Match):
+                    for c in st.cases:
+                        find(c.body, True)
+        find(lp.body, False)
+        if len(sites) != 1 or sites[0][2]:
+            continue
+        block, idx, _ = sites[0]
+        block[idx:idx + 1] = [copy.deepcopy(st) for st in rest]
+        new = copy.copy(lp)
+        tail = lp.orelse
+        new.orelse = []
+        out[k:] = [new] + tail
+        break
+    return out
+
+
+def _enumerate_start(stmts, counts):
+    """for i, x in enumerate(it, S): BODY(i)      ->      for i, x in enumerate(it): BODY(i + S)
+    (S an int literal, i a plain local that BODY does not write and that is not read after the loop)"""
+    out = list(stmts)
+    for k, f in enumerate(out):
+        if not (isinstance(f, ast.For) and isinstance(f.iter, ast.Call) and isinstance(f.iter.func, ast.Name) and f.iter.func.id == "enumerate"
+                and isinstance(f.target, ast.Tuple) and len(f.target.elts) == 2 and isinstance(f.target.elts[0], ast.Name)):
+            continue
+        start = None
+        if len(f.iter.args) == 2 and not f.iter.keywords:
+            start = f.iter.args[1]
+        elif len(f.iter.args) == 1 and len(f.iter.keywords) == 1 and f.iter.keywords[0].arg == "start":
+            start = f.iter.keywords[0].value
+        if not (isinstance(start, ast.Constant) and type(start.value) is int and start.value != 0):
+            continue
+        i = f.target.elts[0].id
+        blocks = f.body + f.orelse
+        written = {n.id for st in blocks for n in ast.walk(st) if isinstance(n, ast.Name) and isinstance(n.ctx, (ast.Store, ast.Del))}
+        inside = sum(1 for st in blocks for n in ast.walk(st) if isinstance(n, ast.Name) and n.id == i and isinstance(n.ctx, ast.Load))
+        info = counts.get(i) if isinstance(counts, dict) else None
+        nested = any(isinstance(n, (ast.FunctionDef, ast.AsyncFunctionDef, ast.Lambda)) for st in blocks for n in ast.walk(st))
+        if i in written or info is None or info[1] != inside or nested or i in _names_loaded(f.iter.args[0]):
+            continue
+        repl = ast.BinOp(left=ast.Name(id=i, ctx=ast.Load()), op=ast.Add(), right=ast.Constant(start.value))
+        out[k] = ast.For(target=f.target, iter=ast.Call(func=f.iter.func, args=[f.iter.args[0]], keywords=[]),
+                         body=[_Subst({i: repl}).visit(copy.deepcopy(st)) for st in f.body],
+                         orelse=[_Subst({i: repl}).visit(copy.deepcopy(st)) for st in f.orelse])
+    return out
+
+
+def _next_index_temps(stmts, counts):
+    """while ...: t = i + K ; BODY(i, t) ; i = t      ->      while ...: BODY(i, i + K) ; i += K
+    (t a local bound only here and read only inside this loop, i and t not written in BODY, K an int literal)"""
+    out = list(stmts)
+    for k, w in enumerate(out):
+        if not (isinstance(w, ast.While) and len(w.body) >= 3):
+            continue
+        first, last = w.body[0], w.body[-1]
+        if not (isinstance(first, ast.Assign) and len(first.targets) == 1 and isinstance(first.targets[0], ast.Name) and isinstance(first.value, ast.BinOp)
+                and isinstance(first.value.op, ast.Add) and isinstance(first.value.left, ast.Name) and isinstance(first.value.right, ast.Constant)
+                and type(first.value.right.value) is int and first.value.right.value > 0):
+            continue
+        t, i = first.targets[0].id, first.value.left.id
+        if not (isinstance(last, ast.Assign) and len(last.targets) == 1 and isinstance(last.targets[0], ast.Name) and last.targets[0].id == i
+                and isinstance(last.value, ast.Name) and last.value.id == t and t != i):
+            continue
+        body = w.body[1:-1]
+        written = {n.id for st in body for n in ast.walk(st) if isinstance(n, ast.Name) and isinstance(n.ctx, (ast.Store, ast.Del))}
+        info = counts.get(t) if isinstance(counts, dict) else None
+        reads_in_loop = sum(1 for n in ast.walk(w) if isinstance(n, ast.Name) and n.id == t and isinstance(n.ctx, ast.Load))
+        has_nested_scope = any(isinstance(n, (ast.FunctionDef, ast.AsyncFunctionDef, ast.Lambda)) for st in body for n in ast.walk(st))
+        if t in written or i in written or info is None or info[0] != 1 or info[1] != reads_in_loop or has_nested_scope \
+                or any(isinstance(n, ast.Name) and n.id == t for n in ast.walk(w.test)):
+            continue
+        new_body = [_Subst({t: first.value}).visit(copy.deepcopy(st)) for st in body]
+        new_body.append(ast.AugAssign(target=ast.Name(id=i, ctx=ast.Store()), op=ast.Add(), value=copy.deepcopy(first.value.right)))
+        out[k] = ast.While(test=w.test, body=new_body, orelse=w.orelse)
     return out
 
 
@@ -2775,13 +2903,466 @@ def _fold_simple(e, consts):
     return e
 
 
-def _assign_equiv(st, old, tree, ref):
+class _NoValue(Exception):
+    pass
+
+
+_SCALARS = (int, str, bytes, bool, float, type(None))
+_MAX_CONST = 1 << 16
+
+
+def _const_eval(e, env, depth=0):
+    """Python value of a constant expression: literals, displays, arithmetic / concatenation / repetition / formatting / slicing of those, a few
+    pure builtins and str/bytes methods, simple comprehensions, and the names in `env` (name -> value).  Raises _NoValue for anything else."""
+    if depth > 40:
+        raise _NoValue
+    ev = lambda x: _const_eval(x, env, depth + 1)       # noqa: E731
+
+    def small(v):
+        if isinstance(v, (str, bytes, tuple, list, dict, set, frozenset)) and len(v) > _MAX_CONST:
+            raise _NoValue
+        if isinstance(v, int) and not isinstance(v, bool) and v.bit_length() > 4096:
+            raise _NoValue
+        return v
+    if isinstance(e, ast.Constant):
+        if isinstance(e.value, _SCALARS):
+            return e.value
+        raise _NoValue
+    if isinstance(e, ast.Name):
+        if isinstance(e.ctx, ast.Load) and e.id in env:
+            return env[e.id]
+        raise _NoValue
+    if isinstance(e, ast.Tuple):
+        return tuple(ev(x) for x in _no_star(e.elts))
+    if isinstance(e, ast.List):
+        return [ev(x) for x in _no_star(e.elts)]
+    if isinstance(e, ast.Set):
+        try:
+            return {ev(x) for x in _no_star(e.elts)}
+        except TypeError:
+            raise _NoValue from None
+    if isinstance(e, ast.Dict):
+        if any(k is None for k in e.keys):
+            out = {}
+            for k, v in zip(e.keys, e.values):
+                if k is None:
+                    inner = ev(v)
+                    if not isinstance(inner, dict):
+                        raise _NoValue
+                    out.update(inner)
+                else:
+                    out[_hashable(ev(k))] = ev(v)
+            return out
+        return {_hashable(ev(k)): ev(v) for k, v in zip(e.keys, e.values)}
+    if isinstance(e, ast.UnaryOp):
+        v = ev(e.operand)
+        try:
+            if isinstance(e.op, ast.USub):
+                return -v
+            if isinstance(e.op, ast.UAdd):
+                return +v
+            if isinstance(e.op, ast.Invert):
+                return ~v
+            if isinstance(e.op, ast.Not):
+                return not v
+        except TypeError:
+            raise _NoValue from None
+    if isinstance(e, ast.BinOp):
+        a, b = ev(e.left), ev(e.right)
+        try:
+            if isinstance(e.op, ast.Add):
+                return small(a + b)
+            if isinstance(e.op, ast.Sub):
+                return a - b
+            if isinstance(e.op, ast.Mult):
+                if isinstance(a, int) and isinstance(b, int) and a.bit_length() + b.bit_length() > 4096:
+                    raise _NoValue
+                if (isinstance(a, (str, bytes, tuple, list)) and isinstance(b, int) and len(a) * max(b, 0) > _MAX_CONST) or \
+                        (isinstance(b, (str, bytes, tuple, list)) and isinstance(a, int) and len(b) * max(a, 0) > _MAX_CONST):
+                    raise _NoValue
+                return a * b
+            if isinstance(e.op, ast.FloorDiv):
+                return a // b
+            if isinstance(e.op, ast.Mod):
+                return small(a % b)
+            if isinstance(e.op, ast.LShift):
+                if not (isinstance(a, int) and isinstance(b, int)) or b > 4096 or b < 0:
+                    raise _NoValue
+                return a << b
+            if isinstance(e.op, ast.RShift):
+                return a >> b
+            if isinstance(e.op, ast.BitOr):
+                return a | b
+            if isinstance(e.op, ast.BitAnd):
+                return a & b
+            if isinstance(e.op, ast.BitXor):
+                return a ^ b
+            if isinstance(e.op, ast.Pow):
+                if not (isinstance(a, int) and isinstance(b, int)) or b < 0 or b > 512 or abs(a) > 1 << 64:
+                    raise _NoValue
+                return a ** b
+        except (TypeError, ValueError, ZeroDivisionError, OverflowError, KeyError):
+            raise _NoValue from None
+        raise _NoValue
+    if isinstance(e, ast.Subscript):
+        v = ev(e.value)
+        if not isinstance(v, (str, bytes, tuple, list, dict)):
+            raise _NoValue
+        try:
+            if isinstance(e.slice, ast.Slice):
+                lo, hi, stp = [None if x is None else ev(x) for x in (e.slice.lower, e.slice.upper, e.slice.step)]
+                return v[lo:hi:stp]
+            return v[_hashable(ev(e.slice))]
+        except (TypeError, ValueError, KeyError, IndexError):
+            raise _NoValue from None
+    if isinstance(e, ast.IfExp):
+        return ev(e.body) if ev(e.test) else ev(e.orelse)
+    if isinstance(e, (ast.ListComp, ast.SetComp, ast.DictComp, ast.GeneratorExp)) and not isinstance(e, ast.GeneratorExp):
+        out = []
+
+        def gen(i, env2):
+            if i == len(e.generators):
+                if isinstance(e, ast.DictComp):
+                    out.append((_hashable(_const_eval(e.key, env2, depth + 1)), _const_eval(e.value, env2, depth + 1)))
+                else:
+                    out.append(_const_eval(e.elt, env2, depth + 1))
+                if len(out) > _MAX_CONST:
+                    raise _NoValue
+                return
+            g = e.generators[i]
+            if g.is_async:
+                raise _NoValue
+            it = _const_eval(g.iter, env2, depth + 1)
+            if isinstance(it, dict):
+                it = list(it)
+            if not isinstance(it, (str, bytes, tuple, list, range)) or len(it) > 4096:
+                raise _NoValue      # sets iterate in an order that is not part of the value
+            for x in it:
+                env3 = dict(env2)
+                _bind_target(g.target, x, env3)
+                if all(_const_eval(c, env3, depth + 1) for c in g.ifs):
+                    gen(i + 1, env3)
+        gen(0, env)
+        try:
+            if isinstance(e, ast.ListComp):
+                return out
+            if isinstance(e, ast.SetComp):
+                return set(out)
+            return dict(out)
+        except TypeError:
+            raise _NoValue from None
+    if isinstance(e, ast.Call) and not any(isinstance(a, ast.Starred) for a in e.args) and not any(k.arg is None for k in e.keywords):
+        f = e.func
+        if isinstance(f, ast.Name) and f.id not in env:
+            args = [ev(a) if not isinstance(a, ast.GeneratorExp) else ev(ast.ListComp(elt=a.elt, generators=a.generators)) for a in e.args]
+            kw = {k.arg: ev(k.value) for k in e.keywords}
+            try:
+                if f.id == "len" and len(args) == 1 and not kw and isinstance(args[0], (str, bytes, tuple, list, dict, set, frozenset)):
+                    return len(args[0])
+                if f.id in ("tuple", "list") and len(args) <= 1 and not kw and (not args or isinstance(args[0], (str, bytes, tuple, list, range, dict))):
+                    return (tuple if f.id == "tuple" else list)(*args)
+                if f.id in ("set", "frozenset") and len(args) <= 1 and not kw and (not args or isinstance(args[0], (str, bytes, tuple, list, set, frozenset))):
+                    return (set if f.id == "set" else frozenset)(*args)
+                if f.id == "dict" and not args:
+                    return dict(kw)
+                if f.id == "dict" and len(args) == 1 and isinstance(args[0], (list, tuple, dict)):
+                    d = dict(args[0])
+                    d.update(kw)
+                    return d
+                if f.id == "zip" and not kw and all(isinstance(a, (str, bytes, tuple, list, range)) for a in args):
+                    return list(zip(*args))
+                if f.id == "range" and not kw and all(isinstance(a, int) for a in args) and 1 <= len(args) <= 3:
+                    r = range(*args)
+                    if len(r) > 4096:
+                        raise _NoValue
+                    return r
+                if f.id == "str" and len(args) == 1 and not kw and isinstance(args[0], (int, str)) and not isinstance(args[0], bool):
+                    return str(args[0])
+                if f.id == "int" and len(args) == 1 and not kw and isinstance(args[0], int):
+                    return int(args[0])
+                if f.id == "bytes" and len(args) == 1 and not kw and isinstance(args[0], (list, tuple)) and all(isinstance(x, int) for x in args[0]):
+                    return bytes(args[0])
+                if f.id in ("min", "max") and not kw and args and all(isinstance(a, int) for a in args):
+                    return (min if f.id == "min" else max)(*args)
+                if f.id == "sorted" and len(args) == 1 and not kw and isinstance(args[0], (tuple, list, str, bytes)):
+                    return sorted(args[0])
+                if f.id == "enumerate" and 1 <= len(args) <= 2 and not kw and isinstance(args[0], (str, bytes, tuple, list)):
+                    return list(enumerate(*args))
+            except (TypeError, ValueError):
+                raise _NoValue from None
+            raise _NoValue
+        if isinstance(f, ast.Attribute):
+            if isinstance(f.value, ast.Name) and f.value.id == "bytes" and "bytes" not in env and f.attr == "maketrans" and len(e.args) == 2 and not e.keywords:
+                a, b = ev(e.args[0]), ev(e.args[1])
+                if isinstance(a, bytes) and isinstance(b, bytes) and len(a) == len(b):
+                    return bytes.maketrans(a, b)
+                raise _NoValue
+            recv = ev(f.value)
+            args = [ev(a) for a in e.args]
+            if e.keywords:
+                raise _NoValue
+            try:
+                if isinstance(recv, str) and f.attr in ("encode",) and all(isinstance(a, str) for a in args) and len(args) <= 1:
+                    return recv.encode(*args)
+                if isinstance(recv, bytes) and f.attr in ("decode",) and all(isinstance(a, str) for a in args) and len(args) <= 1:
+                    return recv.decode(*args)
+                if isinstance(recv, (str, bytes)) and f.attr in ("upper", "lower", "strip", "lstrip", "rstrip", "split", "rsplit", "replace", "join", "title", "hex", "zfill", "ljust", "rjust",
+                                                                  "startswith", "endswith", "isdigit", "isascii", "find", "index", "count", "splitlines", "format"):
+                    if f.attr == "join" and not (len(args) == 1 and isinstance(args[0], (tuple, list)) and all(isinstance(x, type(recv)) for x in args[0])):
+                        raise _NoValue
+                    if f.attr == "format" and not all(isinstance(a, _SCALARS) for a in args):
+                        raise _NoValue
+                    return small(getattr(recv, f.attr)(*args))
+                if isinstance(recv, dict) and f.attr in ("keys", "values", "items") and not args:
+                    return list(getattr(recv, f.attr)())
+                if isinstance(recv, dict) and f.attr == "get" and 1 <= len(args) <= 2:
+                    return recv.get(_hashable(args[0]), *args[1:])
+                if isinstance(recv, int) and not isinstance(recv, bool) and f.attr == "bit_length" and not args:
+                    return recv.bit_length()
+                if isinstance(recv, (tuple, list)) and f.attr in ("index", "count") and len(args) == 1:
+                    return getattr(recv, f.attr)(args[0])
+            except (TypeError, ValueError, UnicodeError, LookupError):
+                raise _NoValue from None
+    if isinstance(e, ast.Compare) and len(e.ops) == 1:
+        a, b = ev(e.left), ev(e.comparators[0])
+        o = e.ops[0]
+        try:
+            if isinstance(o, ast.Eq):
+                return a == b
+            if isinstance(o, ast.NotEq):
+                return a != b
+            if isinstance(o, ast.Lt):
+                return a < b
+            if isinstance(o, ast.LtE):
+                return a <= b
+            if isinstance(o, ast.Gt):
+                return a > b
+            if isinstance(o, ast.GtE):
+                return a >= b
+            if isinstance(o, ast.In):
+                return a in b
+            if isinstance(o, ast.NotIn):
+                return a not in b
+        except TypeError:
+            raise _NoValue from None
+    if isinstance(e, ast.JoinedStr):
+        parts = []
+        for v in e.values:
+            if isinstance(v, ast.Constant):
+                parts.append(v.value)
+            elif isinstance(v, ast.FormattedValue):
+                val = ev(v.value)
+                if not isinstance(val, (int, str)) or isinstance(val, bool):
+                    raise _NoValue
+                spec = ""
+                if v.format_spec is not None:
+                    spec = ev(v.format_spec)
+                if v.conversion not in (-1, 115):
+                    raise _NoValue
+                try:
+                    parts.append(format(val, spec))
+                except (TypeError, ValueError):
+                    raise _NoValue from None
+            else:
+                raise _NoValue
+        return "".join(parts)
+    raise _NoValue
+
+
+def _no_star(elts):
+    if any(isinstance(x, ast.Starred) for x in elts):
+        raise _NoValue
+    return elts
+
+
+def _hashable(v):
+    try:
+        hash(v)
+    except TypeError:
+        raise _NoValue from None
+    return v
+
+
+def _bind_target(t, v, env):
+    if isinstance(t, ast.Name):
+        env[t.id] = v
+    elif isinstance(t, (ast.Tuple, ast.List)) and isinstance(v, (tuple, list)) and len(v) == len(t.elts) and not any(isinstance(x, ast.Starred) for x in t.elts):
+        for tt, vv in zip(t.elts, v):
+            _bind_target(tt, vv, env)
+    else:
+        raise _NoValue
+
+
+def _same_value(a, b):
+    """equal values of equal types, all the way down (1 == True and 1 == 1.0 do not count); dicts also in the same order"""
+    if type(a) is not type(b):
+        return False
+    if isinstance(a, (tuple, list)):
+        return len(a) == len(b) and all(_same_value(x, y) for x, y in zip(a, b))
+    if isinstance(a, dict):
+        return len(a) == len(b) and all(_same_value(k1, k2) and _same_value(a[k1], b[k2]) for k1, k2 in zip(a, b))
+    if isinstance(a, (set, frozenset)):
+        return a == b and all(any(_same_value(x, y) for y in b) for x in a)
+    if isinstance(a, float):
+        return repr(a) == repr(b)
+    return a == b
+
+
+def _value_ast(v):
+    """the display that denotes an immutable value (scalars and tuples of them); None when there is none worth inlining"""
+    if isinstance(v, bool) or v is None or isinstance(v, (int, float)):
+        return ast.Constant(v)
+    if isinstance(v, (str, bytes)):
+        return ast.Constant(v) if len(v) <= 512 else None
+    if isinstance(v, tuple) and len(v) <= 64:
+        elts = [_value_ast(x) for x in v]
+        if all(x is not None for x in elts):
+            return ast.Tuple(elts=elts, ctx=ast.Load())
+    return None
+
+
+def _module_stores(tree):
+    """name -> number of places in the module that may bind it at module level (assignments, imports, defs, loops, `global` statements anywhere)"""
+    n = {}
+
+    def bump(nm):
+        n[nm] = n.get(nm, 0) + 1
+
+    def visit(stmts):
+        for st in stmts:
+            if isinstance(st, (ast.FunctionDef, ast.AsyncFunctionDef, ast.ClassDef)):
+                bump(st.name)
+                continue
+            if isinstance(st, (ast.Import, ast.ImportFrom)):
+                for a in st.names:
+                    bump((a.asname or a.name).split(".")[0])
+                continue
+            for x in ast.walk(st):
+                if isinstance(x, (ast.FunctionDef, ast.AsyncFunctionDef, ast.ClassDef, ast.Lambda)):
+                    continue
+                if isinstance(x, ast.Name) and isinstance(x.ctx, (ast.Store, ast.Del)):
+                    bump(x.id)
+    visit(tree.body)
+    for x in ast.walk(tree):
+        if isinstance(x, ast.Global):
+            for nm in x.names:
+                bump(nm)
+                bump(nm)
+    return n
+
+
+def _const_env(tree, outer=None):
+    """module-level (class-level, with `outer` = the module's) names bound exactly once, by a plain top-level assignment whose value is a
+    constant expression -> value"""
+    stores = _module_stores(tree)
+    env = dict(outer or {})
+    for nm in stores:
+        env.pop(nm, None)           # a class-level binding hides the module-level one
+    for st in tree.body:
+        tg = None
+        if isinstance(st, ast.Assign) and len(st.targets) == 1 and isinstance(st.targets[0], ast.Name):
+            tg, val = st.targets[0].id, st.value
+        elif isinstance(st, ast.AnnAssign) and isinstance(st.target, ast.Name) and st.value is not None:
+            tg, val = st.target.id, st.value
+        if tg is None or stores.get(tg) != 1:
+            continue
+        try:
+            env[tg] = _const_eval(val, env)
+        except _NoValue:
+            pass
+        except RecursionError:
+            pass
+    return env
+
+
+class _FoldConsts(ast.NodeTransformer):
+    """every maximal sub-expression that is a constant expression over literals and module-level constants is replaced by the display of its
+    value (immutable values only: scalars and tuples of scalars)"""
+    def __init__(self, env):
+        self.env = env
+
+    def visit(self, node):
+        if isinstance(node, ast.expr) and not isinstance(node, (ast.Constant, ast.Starred)) and not isinstance(getattr(node, "ctx", None), (ast.Store, ast.Del)):
+            try:
+                v = _const_eval(node, self.env)
+            except (_NoValue, RecursionError):
+                v = _NoValue
+            if v is not _NoValue:
+                a = _value_ast(v)
+                if a is not None:
+                    return a
+        return super().visit(node)
+
+    def visit_JoinedStr(self, node):
+        for v in node.values:
+            if isinstance(v, ast.FormattedValue):
+                v.value = self.visit(v.value)
+        return node
+
+    def _fn(self, node):
+        # names the function (or anything nested in it) binds hide the module-level constant of the same name
+        bound = set()
+        for x in ast.walk(node):
+            if isinstance(x, ast.Name) and isinstance(x.ctx, (ast.Store, ast.Del)):
+                bound.add(x.id)
+            elif isinstance(x, ast.arg):
+                bound.add(x.arg)
+            elif isinstance(x, (ast.FunctionDef, ast.AsyncFunctionDef, ast.ClassDef)) and x is not node:
+                bound.add(x.name)
+            elif isinstance(x, (ast.Import, ast.ImportFrom)):
+                bound |= {(al.asname or al.name).split(".")[0] for al in x.names}
+            elif isinstance(x, ast.ExceptHandler) and x.name:
+                bound.add(x.name)
+            elif isinstance(x, (ast.Global, ast.Nonlocal)):
+                bound |= set(x.names)
+        saved = self.env
+        self.env = {k: v for k, v in saved.items() if k not in bound}
+        self.generic_visit(node)
+        self.env = saved
+        return node
+
+    visit_FunctionDef = visit_AsyncFunctionDef = visit_Lambda = _fn
+
+    def _comp(self, node):
+        bound = {x.id for g in node.generators for x in ast.walk(g.target) if isinstance(x, ast.Name)}
+        saved = self.env
+        self.env = {k: v for k, v in saved.items() if k not in bound}
+        self.generic_visit(node)
+        self.env = saved
+        return node
+
+    visit_ListComp = visit_SetComp = visit_DictComp = visit_GeneratorExp = _comp
+
+
+def _fold_consts(node, env):
+    node = copy.deepcopy(node)
+    if isinstance(node, (ast.FunctionDef, ast.AsyncFunctionDef)):
+        # decorators / defaults are evaluated in the enclosing scope, the body in the function's
+        return _FoldConsts(env)._fn(node)
+    return _FoldConsts(env).visit(node)
+
+
+def _inline_values(env):
+    out = {}
+    for k, v in env.items():
+        a = _value_ast(v)
+        if a is not None:
+            out[k] = a
+    return out
+
+
+def _assign_equiv(st, old, tree, ref, env_new=None, env_old=None):
     """two spellings of one module / class level constant: a list vs a tuple that is only ever read; an expression over module constants vs its value"""
     if not (isinstance(st, (ast.Assign, ast.AnnAssign)) and isinstance(old, (ast.Assign, ast.AnnAssign))) or st.value is None or old.value is None:
         return False
     tg = st.targets[0] if isinstance(st, ast.Assign) else st.target
     if not isinstance(tg, ast.Name):
         return False
+    try:
+        if _same_value(_const_eval(st.value, env_new if env_new is not None else _const_env(tree)), _const_eval(old.value, env_old if env_old is not None else _const_env(ref))):
+            return True         # two constant expressions with one value (same types, same order)
+    except (_NoValue, RecursionError):
+        pass
     a = _fold_simple(st.value, _module_consts(tree))
     b = _fold_simple(old.value, _module_consts(ref))
     if _dump(normal_ast(ast.Expr(value=a))) == _dump(normal_ast(ast.Expr(value=b))):
@@ -2959,6 +3540,10 @@ def substitute(tree, ref, stats=None):
     def scope(new_body, old_body, path, in_class, single_base=None):
         nonlocal differ, proven
         new_items, old_items = _scope_items(new_body), _scope_items(old_body)
+        if in_class:
+            cenv_new, cenv_old = _const_env(ast.Module(body=new_body, type_ignores=[]), env_new), _const_env(ast.Module(body=old_body, type_ignores=[]), env_old)
+        else:
+            cenv_new, cenv_old = env_new, env_old
         # helpers present on one side only
         def helpers_of(items, other):
             h = {}
@@ -2993,14 +3578,27 @@ def substitute(tree, ref, stats=None):
                 except RecursionError:
                     same = False
                 if not same and k[0] == "assign":
-                    same = _assign_equiv(st, old, tree, ref)
+                    same = _assign_equiv(st, old, tree, ref, cenv_new, cenv_old)
+                st_c = old_c = None
+                if not same and (env_new or env_old):
+                    # module-level constants read by either side replaced by their values (a literal hoisted into a named constant, a
+                    # constant spelt through other constants)
+                    try:
+                        st_c, old_c = _fold_consts(st, env_new), _fold_consts(old, env_old)
+                        if _dump(st_c) != _dump(st) or _dump(old_c) != _dump(old):
+                            same = normal_form(st_c, hn, in_class, single_base) == normal_form(old_c, ho, in_class, single_base)
+                    except RecursionError:
+                        same = False
                 if not same and k[0] == "def":
-                    sp = _specialise_new_params(st, old)
-                    if sp is not None:
-                        try:
-                            same = normal_form(sp, hn, in_class, single_base) == normal_form(old, ho, in_class, single_base)
-                        except RecursionError:
-                            same = False
+                    for cand, oref in ((st, old), (st_c, old_c)):
+                        if same or cand is None:
+                            continue
+                        sp = _specialise_new_params(cand, oref)
+                        if sp is not None:
+                            try:
+                                same = normal_form(sp, hn, in_class, single_base) == normal_form(oref, ho, in_class, single_base)
+                            except RecursionError:
+                                same = False
                 if same:
                     proven += 1
                     rep = copy.deepcopy(old)
@@ -3011,6 +3609,7 @@ def substitute(tree, ref, stats=None):
                     if stats is not None:
                         stats.append((label, st, old, hn, ho, in_class, single_base))
     mod_h_new, mod_h_old = {}, {}
+    env_new, env_old = _const_env(tree), _const_env(ref)
     # module-level helpers first (methods may call module-level helpers that were extracted)
     ni, oi = _scope_items(tree.body), _scope_items(ref.body)
     # methods that exist on one side only, in any class of the module (a subclass may call a helper extracted into its base class)
